@@ -667,11 +667,18 @@ func (rw *rewriter) rangeStmt(r *ast.RangeStmt) ([]ast.Stmt, ast.Stmt) {
 		if rw.opt.NoMapOrder || !orderedKey(u.Key()) || !pure(r.X) || r.Key == nil {
 			return nil, r
 		}
-		if id, ok := r.Key.(*ast.Ident); ok && id.Name == "_" {
-			return nil, r
-		}
 		if r.Tok != token.DEFINE {
 			return nil, r
+		}
+		if id, ok := r.Key.(*ast.Ident); ok && id.Name == "_" {
+			if r.Value == nil {
+				return nil, r
+			}
+			if vid, ok := r.Value.(*ast.Ident); ok && vid.Name == "_" {
+				return nil, r
+			}
+			// the key is not named: give it a name so the value can be looked up
+			r.Key = ast.NewIdent("vsched_key")
 		}
 		// for _, k := range vsched.MapKeys(m) { v, ok := m[k]; if !ok { continue }; body }
 		var head []ast.Stmt
